@@ -336,6 +336,9 @@ class C17Executor(Executor):
         return None
 
     def construct(self, st, t, args, kwargs, node):
+        if t.name == "str" and len(args) == 1 and not kwargs and isinstance(args[0], VExt) and args[0].sort == "HeaderObj":
+            from contracts import C17_glue as G
+            return [(st, VStr(G.HTEXT(args[0].t)))]       # str(<Header object>): total, a function of the object
         if t.name == "dict" and len(args) == 1 and not kwargs and \
                 ((isinstance(args[0], VUnk) and args[0].tag == "attr-pairs") or (isinstance(args[0], VExt) and args[0].sort in ("AttrList", "AttrDict"))):
             return [(st, VExt("AttrDict"))]        # dict(<(name, value) pairs of the attribute list>): cannot raise
